@@ -725,12 +725,24 @@ where
 {
     let list_ident = prot.read_list_begin()?;
     validate_list_type(T::ELEMENT_TYPE, &list_ident)?;
-    let mut res = Vec::with_capacity(list_ident.size as usize);
+    let mut res = Vec::with_capacity(list_prealloc(&list_ident));
     for _ in 0..list_ident.size {
         let val = T::read_thrift(prot)?;
         res.push(val);
     }
     Ok(res)
+}
+
+/// Most elements reserved before any element of a list has been read
+const MAX_LIST_PREALLOC: usize = 1024;
+
+/// Capacity to reserve up front for a list.
+///
+/// The size in the list header comes from the input and may be as large as `i32::MAX` without
+/// a single element following it, so it is not reserved as is: the vector grows beyond this
+/// bound as elements actually arrive.
+pub(crate) fn list_prealloc(list_ident: &ListIdentifier) -> usize {
+    (list_ident.size.max(0) as usize).min(MAX_LIST_PREALLOC)
 }
 
 pub(crate) fn validate_list_type(expected: ElementType, got: &ListIdentifier) -> Result<()> {
